@@ -55,12 +55,16 @@ def cases(tier, seed, shard, nshards):
     k = 0
     for di, d in enumerate(DIALECT_CLASSES):
         for j, spec in enumerate(pair_specs(d)):
-            if tier == "quick" and (j + seed) % 6 != di:
-                continue  # quick: each pair under one dialect class (rotating with the seed); thorough: under all six
+            # quick: each pair under one dialect class (rotating with the seed) and under the class that overrides one of the
+            # two calls (PostgreSQL: distinct_on/returning/replace_table/__copy__; MySQL: modifier; SQL Server: top); thorough: all six
+            own = pair_home(spec) == d
+            if tier == "quick" and (j + seed) % 6 != di and not own:
+                continue
             k += 1
             if k % nshards == shard:
                 yield {"k": "pair", "d": d, "spec": spec, "chain": False}
-                if (tier != "quick" or k % 7 == 0) and spec[2] not in ("render", "str", "hash"):
+                rewriter = spec[3].startswith(("replace-", "copy", "as-q"))
+                if (tier != "quick" or k % 7 == 0 or (rewriter and own)) and spec[2] not in ("render", "str", "hash"):
                     # (A's result is the receiver of B here, so A must return a builder: str.join(Table) would iterate forever)
                     yield {"k": "pair", "d": d, "spec": spec, "chain": True}
     n = (2400 if tier == "quick" else 160000) // nshards
@@ -70,6 +74,22 @@ def cases(tier, seed, shard, nshards):
         f = Forest(rnd, d)
         prog = f.grow(rnd.randint(8, 25))
         yield {"k": "forest", "prog": prog, "perm": rnd.getrandbits(32) if i % 2 == 0 else None}
+
+
+def pair_home(spec):
+    """The dialect class whose builder overrides one of the two calls of a sibling pair (None: no override involved)."""
+    a, b = spec[2], spec[3]
+    for x in (a, b):
+        if x.startswith(("distinct-on", "returning")):
+            return "PostgreSQLQuery"
+        if x.startswith("modifier"):
+            return "MySQLQuery"
+        if x.startswith("top-"):
+            return "MSSQLQuery"
+    for x in (a, b):
+        if x.startswith(("replace-", "copy")):
+            return "PostgreSQLQuery"
+    return None
 
 
 def topo_shuffle(prog, seed):
